@@ -229,12 +229,13 @@ Definition compact_inv_ok (x : sx) : sx :=
 
 (** ---- (re)open of a database that may be behind its replica ----------------- *)
 
-(** input  [local L0 at open; remote L0; [[schedule; local L0 after db.Sync] per SyncAndWait]]
+(** input  [local L0 at open; remote L0; [[schedule; local L0 after db.Sync] per SyncAndWait]; sized]
+    sized = 1: the replica's listing reports object sizes (every shipped client); 0: Size 0 = no length check
     output [[class; Replica.Pos; [[kind; txid; remote listing after] per client call]] per SyncAndWait]
     class 0 nil | 1 error; kind 0 LTXFiles | 1 WriteLTXFile | 2 OpenLTXFile *)
 Definition behind_run (x : sx) : sx :=
   let steps := map (fun st => (map dec_coutcome (asL (nthx 0 st)), asNs (nthx 1 st))) (asL (nthx 2 x)) in
-  let '(_, obs) := sync_waits (b_open (asNs (nthx 1 x)) (asNs (nthx 0 x))) steps in
+  let '(_, obs) := sync_waits (asB (nthx 3 x)) (b_open (asNs (nthx 1 x)) (asNs (nthx 0 x))) steps in
   SL (map (fun o => SL [sxN (if N.eqb (so_err o) 0 then 0 else 1)%N; sxN (so_pos o);
                         SL (map (fun c => SL [sxN (c_kind c); sxN (c_txid c); sxNs (c_after c)]) (so_trace o))]) obs).
 
